@@ -585,8 +585,157 @@ pub fn race_job(spec: SpecId, kind: CommitKind, readers: Vec<ReadKind>, bound: u
     }
 }
 
+// ------------------------------------------------------------------------------------------------
+// (c) consecutive blocks on the same ParallelState through the scheduler
+// ------------------------------------------------------------------------------------------------
+
+/// Block A runs through the parallel pipeline under schedule exploration (with a slow database, so
+/// that cache-filling reads overlap commits); block B then runs on the *returned* ParallelState.
+/// Outcomes of both blocks and the two-block bundle must equal revm's State driven by A, merge, B,
+/// merge.
+pub fn two_block_job(spec: SpecId, name: &'static str, a: Vec<(String, TxEnv)>, b: Vec<(String, TxEnv)>, gran: Granularity, bound: usize) -> Job {
+    let pcs = super::pc::all();
+    use crate::case::{finish, normalize_bundle, Observation};
+    use grevm::{Scheduler, TxExecutionOutcome};
+    let base = Arc::new(super::c08::world());
+    let id = format!("c10-twoblocks/{}/{name}/{}-d{bound}", spec_name(spec), gran.name());
+    let labels: Vec<String> = a.iter().chain(b.iter()).map(|(l, _)| l.clone()).collect();
+    let (ta, tb): (Arc<Vec<TxEnv>>, Arc<Vec<TxEnv>>) =
+        (Arc::new(a.into_iter().map(|x| x.1).collect()), Arc::new(b.into_iter().map(|x| x.1).collect()));
+    let expected: Arc<OnceLock<(Vec<TxExecutionOutcome>, BundleState, String)>> = Arc::new(OnceLock::new());
+    let pcs_body = pcs.clone();
+    let body = {
+        let (base, ta, tb) = (base.clone(), ta.clone(), tb.clone());
+        Arc::new(move || {
+            let db = Arc::new(ExecDb::new(base.clone(), None, true, false));
+            crate::case::install_observer(false);
+            let state = ParallelState::new(db, true, false);
+            let s1 = Scheduler::new_with_runtime_config(cfg_env(spec, false), block_env(spec), ta.clone(), state, Some(pcs_body.clone()), RunCfg::parallel(2).grevm_config());
+            let r1 = std::panic::catch_unwind(std::panic::AssertUnwindSafe(|| s1.execute()));
+            let trace = crate::case::take_trace();
+            let mut reads = String::new();
+            let mut obs = match r1 {
+                Ok(Ok(())) => {
+                    let (mut outcomes, mut state) = s1.take_result_and_state();
+                    state.merge_transitions(BundleRetention::Reverts);
+                    let s2 = Scheduler::new_with_runtime_config(cfg_env(spec, false), block_env(spec), tb.clone(), state, Some(pcs_body.clone()), RunCfg::sequential().grevm_config());
+                    let r2 = std::panic::catch_unwind(std::panic::AssertUnwindSafe(|| s2.execute()));
+                    match r2 {
+                        Ok(Ok(())) => {
+                            let (o2, mut state2) = s2.take_result_and_state();
+                            outcomes.extend(o2);
+                            // what the state serves through its database interface after both blocks
+                            let (addrs, slots) = two_block_universe();
+                            reads = format!("{:?}", crate::case::read_universe(&state2, &addrs, &slots));
+                            let bundle = state2.parallel_take_bundle(BundleRetention::Reverts);
+                            Observation { error: None, outcomes, bundle, panic: None }
+                        }
+                        other => finish(s2, other),
+                    }
+                }
+                other => finish(s1, other),
+            };
+            obs.bundle = normalize_bundle(obs.bundle);
+            ExecResult { obs: Some(obs), trace, extra: json!(reads) }
+        })
+    };
+    let judge = {
+        let (base, ta, tb) = (base.clone(), ta.clone(), tb.clone());
+        Arc::new(move |res: &ExecResult| {
+            let exp = expected.get_or_init(|| {
+                let mut case = Case::new("two-blocks", spec, (*base).clone(), vec![]);
+                case.precompiles = Some(pcs.clone());
+                let (addrs, slots) = two_block_universe();
+                crate::case::reference_blocks(&case, &[ta.clone(), tb.clone()], &addrs, &slots)
+            });
+            let obs = res.obs.as_ref().unwrap();
+            if obs.panic.is_some() || obs.error.is_some() {
+                return Judgement::Violation { key: "twoblock-mismatch".into(), detail: format!("error {:?} panic {:?}", obs.error, obs.panic) };
+            }
+            if obs.outcomes != exp.0 {
+                let i = obs.outcomes.iter().zip(&exp.0).position(|(a, b)| a != b).unwrap_or(obs.outcomes.len().min(exp.0.len()));
+                return Judgement::Violation {
+                    key: "twoblock-mismatch".into(),
+                    detail: format!("outcome {i} over the two blocks: got {:?}, expected {:?}", obs.outcomes.get(i), exp.0.get(i)),
+                };
+            }
+            if obs.bundle != exp.1 {
+                return Judgement::Violation { key: "twoblock-mismatch".into(), detail: crate::case::bundle_diff(&obs.bundle, &exp.1) };
+            }
+            let reads = res.extra.as_str().unwrap_or("");
+            if reads != exp.2 {
+                return Judgement::Violation {
+                    key: "stale-slot-after-clear".into(),
+                    detail: format!("values readable through the state's database interface after both blocks differ: ParallelState {reads}, revm State {}", exp.2),
+                };
+            }
+            Judgement::Ok
+        })
+    };
+    Job {
+        id,
+        family: "c10-twoblocks",
+        gran,
+        bound,
+        split: true,
+        step_cap: 40_000,
+        body,
+        judge,
+        describe: json!({"spec": spec_name(spec), "txs": labels, "what": "block A parallel (slow database), block B on the returned state"}),
+        hang_is_violation: true,
+        must_be_nontrivial: false,
+        show: None,
+        seq: None,
+    }
+}
+
+fn two_block_universe() -> (Vec<Address>, Vec<U256>) {
+    (
+        vec![super::c08::x_addr(), super::c08::z_addr(), eoa(0), eoa(1), eoa(2), eoa(3), contract(3), contract(8), fresh(1)],
+        vec![U256::from(0), U256::from(1), U256::from(3)],
+    )
+}
+
+fn two_block_jobs(tier: Tier, v: &mut Vec<Job>) {
+    use super::c08::x_addr as x8;
+    let x = x8();
+    let destroy = ("destroy(X)(e1)".to_string(), tx(eoa(1), 0, Some(x), 0, Default::default()));
+    let probe0 = |who: u64, nonce: u64| (format!("probeslot(X,0)(e{who})"), call(eoa(who), nonce, contract(8), &[word_addr(x), word(0)]));
+    let probe1 = |who: u64, nonce: u64| (format!("probeslot(X,1)(e{who})"), call(eoa(who), nonce, contract(8), &[word_addr(x), word(1)]));
+    let recreate = |nonce: u64| ("recreate(X)(e2)".to_string(), tx(eoa(2), nonce, Some(contract(5)), 2, calldata(&[word(1)])));
+    let write = |nonce: u64| ("write(X.0=7)(e0)".to_string(), call(eoa(0), nonce, x, &[word(0), word(7)]));
+    for spec in [SpecId::BERLIN, SpecId::CANCUN] {
+        let sets: Vec<(&'static str, Vec<(String, TxEnv)>, Vec<(String, TxEnv)>)> = vec![
+            ("destroy|probe -> probe", vec![destroy.clone(), probe0(3, 0)], vec![probe0(3, 1), probe1(0, 0)]),
+            ("probe|destroy -> probe,write", vec![probe0(3, 0), destroy.clone()], vec![probe0(3, 1), write(0)]),
+            ("destroy|recreate|probe -> probe", vec![destroy.clone(), recreate(0), probe1(3, 0)], vec![probe0(3, 1), probe1(0, 0)]),
+        ];
+        let pcread = |who: u64, nonce: u64| {
+            (format!("pc.read(X,0)(e{who})"), call(eoa(who), nonce, super::pc::pc_addr(super::pc::PC_READ), &[word_addr(x), word(0)]))
+        };
+        let mut sets = sets;
+        // a facade read does not touch the account, so nothing clears the slot cache again
+        sets.push(("destroy|pc.read -> pc.read", vec![destroy.clone(), pcread(3, 0)], vec![pcread(3, 1)]));
+        sets.push(("pc.read|destroy -> pc.read", vec![pcread(3, 0), destroy.clone()], vec![pcread(3, 1)]));
+        for (name, a, b) in sets {
+            match tier {
+                Tier::Quick => {
+                    v.push(two_block_job(spec, name, a.clone(), b.clone(), COARSE, 2));
+                    v.push(two_block_job(spec, name, a, b, FOCUS_FILL, 4));
+                }
+                Tier::Thorough => {
+                    v.push(two_block_job(spec, name, a.clone(), b.clone(), COARSE, 3));
+                    v.push(two_block_job(spec, name, a.clone(), b.clone(), FOCUS_FILL, 5));
+                    v.push(two_block_job(spec, name, a, b, FINE, 2));
+                }
+            }
+        }
+    }
+}
+
 pub fn jobs(tier: Tier) -> Vec<Job> {
     let mut v = Vec::new();
+    two_block_jobs(tier, &mut v);
     match tier {
         Tier::Quick => {
             v.push(bfs_job(SpecId::BERLIN, 5));
